@@ -419,125 +419,292 @@ Proof.
       apply IH; [lia|]. intros E. rewrite E in H. contradiction.
 Qed.
 
-Lemma scannable_of_c (body : string) :
-  c_decode body <> None -> contains bs_bs_quote body = false -> scannable body.
-Proof. intros H1 H2. split; [apply c_decode_pair_wf, H1|exact H2]. Qed.
+Lemma scannable_of_c (body : string) : c_decode body <> None -> scannable body.
+Proof. apply c_decode_pair_wf. Qed.
 
 Lemma scannableb_spec (body : string) : scannableb body = true <-> scannable body.
+Proof. reflexivity. Qed.
+
+Lemma split_once_char_spec (c : ascii) (s l r : string) :
+  split_once (String c "") s = Some (l, r) ->
+  s = l ++ String c "" ++ r /\ contains (String c "") l = false.
 Proof.
-  unfold scannableb, scannable. rewrite andb_true_iff, negb_true_iff. reflexivity.
+  intros H. apply split_once_spec in H. destruct H as [Hs Ns]. split; [exact Hs|].
+  destruct (contains (String c "") l) eqn:Cl; [|reflexivity].
+  unfold contains in Cl. destruct (split_once (String c "") l) as [[x y]|] eqn:E; [|discriminate].
+  apply split_once_spec in E. destruct E as [El _]. subst l.
+  rewrite no_start_app in Ns. apply andb_true_iff in Ns. destruct Ns as [_ Ns].
+  rewrite no_start_app in Ns. apply andb_true_iff in Ns. destruct Ns as [Ns _].
+  cbn [no_start append starts_with] in Ns. rewrite Ascii.eqb_refl in Ns. discriminate.
 Qed.
 
-(** the text up to the first quote of a well-formed body ends in the backslash of that quote *)
-Lemma wf_split_quote (l r : string) :
-  pair_wf (l ++ """" ++ r) = true -> contains """" l = false ->
-  (exists l', l = l' ++ "\") /\ pair_wf r = true.
+(** ** the parity rule: the model counts the backslashes that end the text before the quote;
+    the parity of that number is [escaped_parity] *)
+Lemma trailing_from_parity (s : string) : forall run,
+  Nat.even (trailing_backslashes_from run s) = negb (escaped_parity (Nat.odd run) s).
 Proof.
-  remember (String.length l) as n eqn:Hn.
-  assert (Hle : String.length l <= n) by lia. clear Hn. revert l Hle.
-  induction n as [|n IH]; intros l Hle W C.
-  - destruct l; [|cbn [String.length] in Hle; lia]. cbn in W. discriminate.
-  - destruct l as [|a l1]; [cbn in W; discriminate|].
-    cbn [String.length] in Hle.
-    apply contains_false_cons in C. destruct C as [C1 C2].
-    cbn [starts_with] in C1. rewrite andb_true_r in C1. rewrite Ascii.eqb_sym in C1.
-    cbn [append pair_wf] in W. rewrite C1 in W.
+  induction s as [|a s IH]; intros run; cbn [trailing_backslashes_from escaped_parity].
+  - rewrite Nat.negb_odd. reflexivity.
+  - rewrite IH. destruct (Ascii.eqb a "\"); [|reflexivity].
+    rewrite Nat.odd_succ, Nat.negb_odd. reflexivity.
+Qed.
+
+Lemma even_trailing (s : string) :
+  Nat.even (trailing_backslashes s) = negb (escaped_parity false s).
+Proof. apply (trailing_from_parity s 0). Qed.
+
+(** the count is the length of the run of backslashes that ends the text *)
+Lemma trailing_from_app_bs (s : string) : forall run,
+  trailing_backslashes_from run (s ++ "\") = S (trailing_backslashes_from run s).
+Proof.
+  induction s as [|a s IH]; intros run; [reflexivity|].
+  cbn [append trailing_backslashes_from]. apply IH.
+Qed.
+
+Lemma trailing_from_app_other (s : string) (c : ascii) : forall run,
+  Ascii.eqb c "\" = false -> trailing_backslashes_from run (s ++ String c "") = 0.
+Proof.
+  induction s as [|a s IH]; intros run Hc.
+  - cbn [append trailing_backslashes_from]. rewrite Hc. reflexivity.
+  - cbn [append trailing_backslashes_from]. apply IH. exact Hc.
+Qed.
+
+Theorem trailing_backslashes_spec :
+  trailing_backslashes "" = 0
+  /\ (forall s, trailing_backslashes (s ++ "\") = S (trailing_backslashes s))
+  /\ (forall s c, c <> "\"%char -> trailing_backslashes (s ++ String c "") = 0).
+Proof.
+  split; [reflexivity|]. split.
+  - intros s. apply trailing_from_app_bs.
+  - intros s c Hc. apply trailing_from_app_other. apply Ascii.eqb_neq. exact Hc.
+Qed.
+Print Assumptions trailing_backslashes_spec.
+
+Lemma escaped_parity_app (odd : bool) (a b : string) :
+  escaped_parity odd (a ++ b) = escaped_parity (escaped_parity odd a) b.
+Proof.
+  revert odd. induction a as [|x a IH]; intros odd; [reflexivity|].
+  cbn [append escaped_parity]. apply IH.
+Qed.
+
+Lemma first_close_cons (odd : bool) (a : ascii) (r : string) :
+  first_close odd (String a r) =
+  if Ascii.eqb a """" && negb odd then Some ("", r)
+  else match first_close (if Ascii.eqb a "\" then negb odd else false) r with
+       | Some (b, t) => Some (String a b, t)
+       | None => None
+       end.
+Proof. reflexivity. Qed.
+
+Lemma quote_absent_cons (a : ascii) (l : string) :
+  contains """" (String a l) = false -> Ascii.eqb a """" = false /\ contains """" l = false.
+Proof.
+  intros C. apply contains_false_cons in C. destruct C as [C1 C2].
+  cbn [starts_with] in C1. rewrite andb_true_r in C1. rewrite Ascii.eqb_sym in C1.
+  split; assumption.
+Qed.
+
+Lemma first_close_none (s : string) : forall odd,
+  contains """" s = false -> first_close odd s = None.
+Proof.
+  induction s as [|a s IH]; intros odd C; [reflexivity|].
+  apply quote_absent_cons in C. destruct C as [C1 C2].
+  rewrite first_close_cons, C1. cbn [andb]. rewrite (IH _ C2). reflexivity.
+Qed.
+
+(** up to the first quote: it closes when an even number of backslashes precedes it *)
+Lemma first_close_skip (l rest : string) : forall odd,
+  contains """" l = false ->
+  first_close odd (l ++ """" ++ rest) =
+  if escaped_parity odd l
+  then match first_close false rest with
+       | Some (b, t) => Some (l ++ """" ++ b, t)
+       | None => None
+       end
+  else Some (l, rest).
+Proof.
+  induction l as [|a l IH]; intros odd C.
+  - destruct odd; [|reflexivity].
+    cbn [append escaped_parity]. rewrite first_close_cons. cbn [negb andb].
+    change (Ascii.eqb """" """") with true. change (Ascii.eqb """" "\") with false. cbn [andb].
+    destruct (first_close false rest) as [[b t]|]; reflexivity.
+  - apply quote_absent_cons in C. destruct C as [C1 C2].
+    cbn [escaped_parity]. change (String a l ++ """" ++ rest) with (String a (l ++ """" ++ rest)).
+    rewrite first_close_cons, C1. cbn [andb].
+    rewrite (IH _ C2).
+    destruct (escaped_parity (if Ascii.eqb a "\" then negb odd else false) l); [|reflexivity].
+    destruct (first_close false rest) as [[b t]|]; reflexivity.
+Qed.
+
+(** the result of [first_close] is what its name says *)
+Lemma first_close_sound (s : string) : forall odd b t,
+  first_close odd s = Some (b, t) ->
+  s = b ++ """" ++ t /\ escaped_parity odd b = false /\
+  forall l r, b = l ++ """" ++ r -> escaped_parity odd l = true.
+Proof.
+  induction s as [|a s IH]; intros odd b t H; [discriminate|].
+  rewrite first_close_cons in H.
+  destruct (Ascii.eqb a """" && negb odd) eqn:T.
+  - inversion H; subst b t. apply andb_true_iff in T. destruct T as [T1 T2].
+    apply Ascii.eqb_eq in T1. subst a. apply negb_true_iff in T2. subst odd.
+    split; [reflexivity|]. split; [reflexivity|].
+    intros l r Hl. destruct l; discriminate.
+  - destruct (first_close (if Ascii.eqb a "\" then negb odd else false) s) as [[b' t']|] eqn:F;
+      [|discriminate].
+    inversion H; subst b t. destruct (IH _ _ _ F) as [I1 [I2 I3]].
+    split; [cbn [append]; f_equal; exact I1|].
+    split; [cbn [escaped_parity]; exact I2|].
+    intros l r Hl. destruct l as [|x l]; cbn [append] in Hl; inversion Hl.
+    + subst a. cbn [escaped_parity]. rewrite Ascii.eqb_refl in T. cbn [andb] in T.
+      apply negb_false_iff in T. exact T.
+    + subst x. cbn [escaped_parity]. apply (I3 l r). assumption.
+Qed.
+
+Lemma first_close_complete (b : string) : forall odd t,
+  escaped_parity odd b = false ->
+  (forall l r, b = l ++ """" ++ r -> escaped_parity odd l = true) ->
+  first_close odd (b ++ """" ++ t) = Some (b, t).
+Proof.
+  induction b as [|a b IH]; intros odd t P Q.
+  - cbn [escaped_parity] in P. subst odd. reflexivity.
+  - change (String a b ++ """" ++ t) with (String a (b ++ """" ++ t)). rewrite first_close_cons.
+    assert (T : Ascii.eqb a """" && negb odd = false).
+    { destruct (Ascii.eqb a """") eqn:Eq; [|reflexivity].
+      apply Ascii.eqb_eq in Eq. subst a. specialize (Q "" b eq_refl).
+      cbn [escaped_parity] in Q. rewrite Q. reflexivity. }
+    rewrite T. cbn [escaped_parity] in P. rewrite (IH _ t P); [reflexivity|].
+    intros l r Hl. specialize (Q (String a l) r). cbn [append escaped_parity] in Q.
+    apply Q. rewrite Hl. reflexivity.
+Qed.
+
+(** C's bodies: after an escaped character the parity is even again *)
+Lemma first_close_wf (rest : string) : forall n body,
+  String.length body <= n -> pair_wf body = true ->
+  first_close false (body ++ """" ++ rest) = Some (body, rest).
+Proof.
+  induction n as [|n IH]; intros body Hle W.
+  - destruct body; [reflexivity|cbn [String.length] in Hle; lia].
+  - destruct body as [|a r]; [reflexivity|].
+    cbn [String.length] in Hle. cbn [pair_wf] in W.
+    change (String a r ++ """" ++ rest) with (String a (r ++ """" ++ rest)).
     destruct (Ascii.eqb a "\") eqn:Ea.
-    + apply Ascii.eqb_eq in Ea. subst a.
-      destruct l1 as [|e l2].
-      * split; [exists ""; reflexivity|]. exact W.
-      * apply contains_false_cons in C2. destruct C2 as [_ C3].
-        destruct (IH l2) as [[l' Hl'] Wr]; [cbn [String.length] in Hle; lia|exact W|exact C3|].
-        split; [|exact Wr]. exists (String "\" (String e l')). rewrite Hl'. reflexivity.
-    + destruct (IH l1) as [[l' Hl'] Wr]; [lia|exact W|exact C2|].
-      split; [|exact Wr]. exists (String a l'). rewrite Hl'. reflexivity.
+    + assert (Eq : Ascii.eqb a """" = false) by (apply Ascii.eqb_eq in Ea; subst a; reflexivity).
+      destruct r as [|e r']; [discriminate|].
+      rewrite first_close_cons, Eq, Ea. cbn [andb negb].
+      change (String e r' ++ """" ++ rest) with (String e (r' ++ """" ++ rest)).
+      rewrite first_close_cons. cbn [negb]. rewrite andb_false_r.
+      replace (if Ascii.eqb e "\" then false else false) with false
+        by (destruct (Ascii.eqb e "\"); reflexivity).
+      rewrite (IH r'); [reflexivity|cbn [String.length] in Hle; lia|exact W].
+    + destruct (Ascii.eqb a """") eqn:Eq; [discriminate|].
+      rewrite first_close_cons, Eq, Ea. cbn [andb].
+      rewrite (IH r); [reflexivity|lia|exact W].
 Qed.
 
-(** a well-formed body that ends in a backslash ends in two *)
-Lemma wf_trailing_aux (p : string) : pair_wf (p ++ "\") = true -> exists p', p = p' ++ "\".
+(** ** [find_close] is [first_close] *)
+
+(** the fuel it needs: the length of the body (of the whole text when no quote closes) *)
+Definition close_measure (s : string) : nat :=
+  match first_close false s with
+  | Some (b, _) => String.length b
+  | None => String.length s
+  end.
+
+Lemma close_measure_le (s : string) : close_measure s <= String.length s.
 Proof.
-  remember (String.length p) as n eqn:Hn.
-  assert (Hle : String.length p <= n) by lia. clear Hn. revert p Hle.
-  induction n as [|n IH]; intros p Hle W.
-  - destruct p; [|cbn [String.length] in Hle; lia]. cbn in W. discriminate.
-  - destruct p as [|a p1]; [cbn in W; discriminate|].
-    cbn [String.length] in Hle. cbn [append pair_wf] in W.
-    destruct (Ascii.eqb a "\") eqn:Ea.
-    + apply Ascii.eqb_eq in Ea. subst a.
-      destruct p1 as [|e p2].
-      * exists "". reflexivity.
-      * destruct (IH p2) as [p' Hp']; [cbn [String.length] in Hle; lia|exact W|].
-        exists (String "\" (String e p')). rewrite Hp'. reflexivity.
-    + destruct (Ascii.eqb a """"); [discriminate|].
-      destruct (IH p1) as [p' Hp']; [lia|exact W|].
-      exists (String a p'). rewrite Hp'. reflexivity.
+  unfold close_measure. destruct (first_close false s) as [[b t]|] eqn:F; [|lia].
+  apply first_close_sound in F. destruct F as [Hs _]. rewrite Hs.
+  rewrite s_length_app. lia.
 Qed.
 
-Lemma wf_trailing (b : string) : pair_wf b = true -> ends_with "\" b = true -> ends_with "\\" b = true.
+Theorem find_close_first_close : forall fuel s acc,
+  close_measure s < fuel ->
+  find_close fuel s acc =
+  match first_close false s with
+  | Some (b, t) => Some (rev_string acc ++ b, t)
+  | None => None
+  end.
 Proof.
-  intros W E. apply ends_with_decomp in E. destruct E as [p Hp]. subst b.
-  destruct (wf_trailing_aux _ W) as [p' Hp']. subst p.
-  rewrite s_app_assoc. change ("\" ++ "\") with "\\". apply ends_with_app.
+  induction fuel as [|f IH]; intros s acc Hf; [lia|].
+  cbn [find_close]. destruct (split_once """" s) as [[l r]|] eqn:E.
+  - apply split_once_char_spec in E. destruct E as [Es Cl]. subst s.
+    unfold close_measure in Hf. rewrite (first_close_skip l r false Cl) in Hf.
+    rewrite (first_close_skip l r false Cl), even_trailing.
+    destruct (escaped_parity false l); cbn [negb]; [|reflexivity].
+    rewrite IH.
+    + destruct (first_close false r) as [[b t]|]; [|reflexivity].
+      rewrite rev_string_app, rev_string_invol, !s_app_assoc. reflexivity.
+    + unfold close_measure. destruct (first_close false r) as [[b t]|].
+      * rewrite !s_length_app in Hf. cbn [String.length] in Hf. lia.
+      * rewrite !s_length_app in Hf. cbn [String.length] in Hf. lia.
+  - rewrite first_close_none; [reflexivity|]. unfold contains. rewrite E. reflexivity.
 Qed.
+Print Assumptions find_close_first_close.
 
-Lemma find_close_gen (rest : string) : forall n b fuel acc,
-  String.length b < n -> String.length b < fuel ->
-  pair_wf b = true -> contains bs_bs_quote b = false ->
-  find_close fuel (b ++ """" ++ rest) acc = Some (rev_string acc ++ b, rest).
+(** THE PARITY RULE.  [find_close] returns the text up to the first quote preceded by an even
+    number of backslashes, and the text after that quote: [closes_body body] says that an even
+    number of backslashes ends [body] and that every quote inside it has an odd number of
+    backslashes in front *)
+Theorem find_close_parity : forall fuel s body rest,
+  String.length s < fuel ->
+  (find_close fuel s "" = Some (body, rest) <-> s = body ++ """" ++ rest /\ closes_body body).
 Proof.
-  induction n as [|n IH]; intros b fuel acc Hn Hf W C; [lia|].
-  destruct fuel as [|f]; [lia|]. cbn [find_close].
-  destruct (split_once """" b) as [[l r]|] eqn:E.
-  - apply split_once_spec in E. destruct E as [Eb Ns]. subst b.
-    assert (Cl : contains """" l = false).
-    { destruct (contains """" l) eqn:Cl; [|reflexivity].
-      unfold contains in Cl. destruct (split_once """" l) as [[x y]|] eqn:E; [|discriminate].
-      apply split_once_spec in E. destruct E as [El _]. subst l.
-      rewrite no_start_app in Ns.
-      apply andb_true_iff in Ns. destruct Ns as [_ Ns].
-      rewrite no_start_app in Ns. apply andb_true_iff in Ns. destruct Ns as [Ns _].
-      cbn in Ns. discriminate. }
-    destruct (wf_split_quote _ _ W Cl) as [[l' Hl'] Wr].
-    rewrite !s_app_assoc.
-    rewrite (split_once_char _ l (r ++ """" ++ rest) Cl).
-    assert (E1 : ends_with "\" l = true) by (subst l; apply ends_with_app).
-    assert (E2 : ends_with "\\" l = false).
-    { destruct (ends_with "\\" l) eqn:E2; [|reflexivity].
-      apply ends_with_decomp in E2. destruct E2 as [p Hp].
-      rewrite Hp in C. rewrite s_app_assoc in C.
-      change ("\\" ++ """" ++ r) with (bs_bs_quote ++ r) in C.
-      rewrite contains_mid in C. discriminate. }
-    rewrite E1, E2. cbn [negb orb].
-    rewrite s_length_app in Hn, Hf. cbn [append String.length] in Hn, Hf.
-    rewrite (IH r f); [| lia | lia | exact Wr | apply (contains_false_app_r _ (l ++ """")); rewrite s_app_assoc; exact C].
-    rewrite rev_string_app, rev_string_invol, !s_app_assoc. reflexivity.
-  - assert (Cb : contains """" b = false) by (unfold contains; rewrite E; reflexivity).
-    rewrite (split_once_char _ b rest Cb).
-    destruct (ends_with "\" b) eqn:E1.
-    + rewrite (wf_trailing _ W E1). reflexivity.
-    + reflexivity.
+  intros fuel s body rest Hf.
+  assert (Hm : close_measure s < fuel) by (pose proof (close_measure_le s); lia).
+  rewrite (find_close_first_close fuel s "" Hm). split.
+  - intros H. destruct (first_close false s) as [[b t]|] eqn:F; [|discriminate].
+    cbn [rev_string rev_string_aux append] in H. inversion H; subst b t.
+    apply first_close_sound in F. destruct F as [F1 [F2 F3]].
+    split; [exact F1|]. split; assumption.
+  - intros [Hs [C1 C2]]. subst s. rewrite (first_close_complete body false rest C1 C2). reflexivity.
 Qed.
+Print Assumptions find_close_parity.
 
-(** S1 *)
-Theorem find_close_exact : forall body rest, scannable body ->
-  find_close (S (String.length (body ++ """" ++ rest))) (body ++ """" ++ rest) "" = Some (body, rest).
+(** no closing quote is found exactly when no quote of the text has an even number of backslashes
+    in front *)
+Corollary find_close_none_parity : forall fuel s,
+  String.length s < fuel ->
+  (find_close fuel s "" = None <-> forall body rest, s = body ++ """" ++ rest -> ~ closes_body body).
 Proof.
-  intros body rest [W C].
-  rewrite (find_close_gen rest (S (String.length body)) body); [reflexivity| | |exact W|exact C].
-  - lia.
-  - rewrite s_length_app. lia.
+  intros fuel s Hf. split.
+  - intros H body rest Hs Hc.
+    assert (E : find_close fuel s "" = Some (body, rest))
+      by (apply (find_close_parity fuel s body rest Hf); split; assumption).
+    rewrite H in E. discriminate.
+  - intros H. destruct (find_close fuel s "") as [[body rest]|] eqn:E; [|reflexivity].
+    apply (find_close_parity fuel s body rest Hf) in E. destruct E as [Hs Hc].
+    exfalso. exact (H body rest Hs Hc).
 Qed.
-Print Assumptions find_close_exact.
+Print Assumptions find_close_none_parity.
+
+(** C's literal bodies end where C says *)
+Lemma wf_closes_body (body : string) : pair_wf body = true -> closes_body body.
+Proof.
+  intros W. pose proof (first_close_wf "" (String.length body) body (le_n _) W) as F.
+  apply first_close_sound in F. destruct F as [_ [F2 F3]]. split; assumption.
+Qed.
 
 (** with any sufficient fuel and any accumulator *)
 Theorem find_close_exact_fuel : forall body rest fuel acc, scannable body ->
   String.length body < fuel ->
   find_close fuel (body ++ """" ++ rest) acc = Some (rev_string acc ++ body, rest).
 Proof.
-  intros body rest fuel acc [W C] Hf.
-  apply (find_close_gen rest (S (String.length body))); [lia|exact Hf|exact W|exact C].
+  intros body rest fuel acc W Hf.
+  pose proof (first_close_wf rest (String.length body) body (le_n _) W) as F.
+  rewrite find_close_first_close; [rewrite F; reflexivity|].
+  unfold close_measure. rewrite F. exact Hf.
 Qed.
 Print Assumptions find_close_exact_fuel.
+
+(** S1 *)
+Theorem find_close_exact : forall body rest, scannable body ->
+  find_close (S (String.length (body ++ """" ++ rest))) (body ++ """" ++ rest) "" = Some (body, rest).
+Proof.
+  intros body rest W.
+  rewrite (find_close_exact_fuel body rest _ "" W); [reflexivity|].
+  rewrite s_length_app. lia.
+Qed.
+Print Assumptions find_close_exact.
 
 (** * The scanner: one loop turn *)
 
@@ -561,7 +728,7 @@ Lemma scan_loop_code (f : nat) (asm : bool) (rem out : string) (ins : bool) (st 
                      | Some (b, t) => (b, Some t)
                      | None => (pre, None)
                      end in
-  if negb (starts_with "#include" s2) && negb asm then
+  if negb (starts_with "#include" (trim_start s2)) && negb asm then
     match split_once """" s2 with
     | Some (lft, _) =>
         match find_close (S (String.length rem)) (string_drop (S (String.length lft)) rem) "" with
@@ -607,7 +774,7 @@ Proof.
   rewrite scan_loop_code; [|exact Hc|apply String.eqb_neq; exact Hp].
   rewrite (before_none _ _ Cs). cbv zeta. rewrite (split_once_none _ _ Cb).
   rewrite (split_once_none _ _ Cq).
-  destruct (negb (starts_with "#include" p) && negb asm); reflexivity.
+  destruct (negb (starts_with "#include" (trim_start p)) && negb asm); reflexivity.
 Qed.
 
 (** * Literals are opaque (C09) *)
@@ -623,6 +790,15 @@ Proof.
   - rewrite Ascii.eqb_sym, C1. reflexivity.
   - cbn [starts_with] in H. destruct (Ascii.eqb x y); [|reflexivity].
     cbn [andb] in *. apply IH; assumption.
+Qed.
+
+(** leading white space ends at the first character that is not white space *)
+Lemma trim_start_app_nonws (a : string) (c : ascii) (z : string) :
+  is_ws c = false -> trim_start (a ++ String c z) = trim_start a ++ String c z.
+Proof.
+  intros Hc. induction a as [|x a IH].
+  - cbn [append trim_start]. rewrite Hc. reflexivity.
+  - cbn [append trim_start]. destruct (is_ws x); [exact IH|reflexivity].
 Qed.
 
 (** S2 *)
@@ -646,8 +822,9 @@ Proof.
   rewrite (before_skip "//" (pre ++ """") R (A _ _ _ Ms eq_refl eq_refl)).
   cbv zeta.
   rewrite (split_once_skip "/*" (pre ++ """") (before "//" R) (A _ _ _ Mb eq_refl eq_refl)).
-  assert (B : forall z, starts_with "#include" ((pre ++ """") ++ z) = false).
-  { intros z. rewrite s_app_assoc. apply starts_with_blocked; [exact Mi|reflexivity]. }
+  assert (B : forall z, starts_with "#include" (trim_start ((pre ++ """") ++ z)) = false).
+  { intros z. rewrite s_app_assoc. cbn [append]. rewrite trim_start_app_nonws by reflexivity.
+    apply starts_with_blocked; [exact Mi|reflexivity]. }
   assert (Q : forall z, split_once """" ((pre ++ """") ++ z) = Some (pre, z)).
   { intros z. rewrite s_app_assoc. apply split_once_char. exact Mq. }
   assert (F : find_close (S (String.length ((pre ++ """") ++ R)))
@@ -686,27 +863,49 @@ Proof.
 Qed.
 Print Assumptions scan_line_one_literal.
 
-(** S3: the refutations.  QQ = the quote, BS = one backslash *)
+(** S3: the parity rule at work, and what remains refuted.  QQ = the quote, BS = one backslash *)
 Local Notation QQ := """" (only parsing).
 Local Notation BS := "\" (only parsing).
 Definition st0 : scan_state := mkScan false 0 [].
 
-(** the C literal made of a, escaped backslash, escaped quote, b: the escaped quote is taken
-    for the closing one because two backslashes precede it; "b" is left over as code and its
-    quote opens a literal that never closes *)
-Example scan_backslash_quote_refuted :
+(** the parity rule (the repaired defect).  The C literal made of a, escaped backslash, escaped
+    quote, b is ONE literal: three backslashes precede its inner quote, which is therefore
+    escaped (the unrepaired scanner took it for the closing quote because two backslashes precede
+    it, and rejected the line as an unterminated string) *)
+Example scan_backslash_parity :
   scan_line false ("s = " ++ QQ ++ "a" ++ BS ++ BS ++ BS ++ QQ ++ "b" ++ QQ ++ ";" ++ nl) st0
-  = ScanUnterminated "s = @0@b" true (mkScan false 1 ["a" ++ BS ++ BS ++ BS])
+  = ScanOk ("s = @0@;" ++ nl) true (mkScan false 1 ["a" ++ BS ++ BS ++ BS ++ QQ ++ "b"])
   /\ c_decode ("a" ++ BS ++ BS ++ BS ++ QQ ++ "b") = Some ("a" ++ BS ++ QQ ++ "b")
-  /\ scannableb ("a" ++ BS ++ BS ++ BS ++ QQ ++ "b") = false
-  /\ find_close 20 ("a" ++ BS ++ BS ++ BS ++ QQ ++ "b" ++ QQ ++ ";") "" = Some ("a" ++ BS ++ BS ++ BS, "b" ++ QQ ++ ";").
+  /\ scannableb ("a" ++ BS ++ BS ++ BS ++ QQ ++ "b") = true
+  /\ find_close 20 ("a" ++ BS ++ BS ++ BS ++ QQ ++ "b" ++ QQ ++ ";") ""
+     = Some ("a" ++ BS ++ BS ++ BS ++ QQ ++ "b", ";").
 Proof. vm_compute. repeat split. Qed.
 
-(** with two such literals on a line the scanner succeeds and records wrong bodies *)
-Example scan_backslash_quote_wrong_body :
+(** a literal that ends in an escaped backslash closes at its quote (two backslashes: even),
+    and the text that follows is scanned as code, a second literal included *)
+Example scan_backslash_parity_even :
+  scan_line false ("s = " ++ QQ ++ "a" ++ BS ++ BS ++ QQ ++ " + x; t = " ++ QQ ++ "b" ++ QQ ++ ";" ++ nl) st0
+  = ScanOk ("s = @0@ + x; t = @1@;" ++ nl) true (mkScan false 2 ["b"; "a" ++ BS ++ BS])
+  /\ find_close 30 ("a" ++ BS ++ BS ++ QQ ++ " + x;") "" = Some ("a" ++ BS ++ BS, " + x;")
+  /\ trailing_backslashes ("a" ++ BS ++ BS) = 2.
+Proof. vm_compute. repeat split. Qed.
+
+(** two escaped backslashes and an escaped quote: five backslashes precede the inner quote (odd:
+    escaped), none the last one *)
+Example scan_backslash_parity_five :
+  scan_line false ("s = " ++ QQ ++ BS ++ BS ++ BS ++ BS ++ BS ++ QQ ++ QQ ++ ";" ++ nl) st0
+  = ScanOk ("s = @0@;" ++ nl) true (mkScan false 1 [BS ++ BS ++ BS ++ BS ++ BS ++ QQ])
+  /\ c_decode (BS ++ BS ++ BS ++ BS ++ BS ++ QQ) = Some (BS ++ BS ++ QQ)
+  /\ trailing_backslashes (BS ++ BS ++ BS ++ BS ++ BS) = 5
+  /\ escaped_parity false (BS ++ BS ++ BS ++ BS ++ BS) = true.
+Proof. vm_compute. repeat split. Qed.
+
+(** two such literals on a line: the bodies are the right ones (the unrepaired scanner
+    succeeded here and recorded the bodies a\\\ and c) *)
+Example scan_backslash_parity_two :
   scan_line false ("s = " ++ QQ ++ "a" ++ BS ++ BS ++ BS ++ QQ ++ "b" ++ BS ++ BS ++ BS ++ QQ ++ "c" ++ QQ ++ ";" ++ nl) st0
-  = ScanOk ("s = @0@b" ++ BS ++ BS ++ BS ++ "@1@;" ++ nl) true
-           (mkScan false 2 ["c"; "a" ++ BS ++ BS ++ BS]).
+  = ScanOk ("s = @0@;" ++ nl) true
+           (mkScan false 1 ["a" ++ BS ++ BS ++ BS ++ QQ ++ "b" ++ BS ++ BS ++ BS ++ QQ ++ "c"]).
 Proof. vm_compute. reflexivity. Qed.
 
 (** the character constant that holds a double quote *)
@@ -735,7 +934,7 @@ Proof.
   rewrite (split_once_none _ _ Mb), (split_once_none _ _ Mq).
   unfold plain_of. cbn [append].
   assert (E : String.eqb pre "" = false) by (apply String.eqb_neq; exact Hp).
-  rewrite E. destruct (negb (starts_with "#include" pre) && negb asm); reflexivity.
+  rewrite E. destruct (negb (starts_with "#include" (trim_start pre)) && negb asm); reflexivity.
 Qed.
 Print Assumptions line_comment_dropped.
 
@@ -791,11 +990,11 @@ Proof.
   rewrite B. cbv zeta.
   rewrite (split_once_2_distinct "/" "*" pre (before "//" z) ltac:(discriminate) Mb).
   rewrite (split_once_none _ _ Mq).
-  replace (if negb (starts_with "#include" pre) && negb asm
+  replace (if negb (starts_with "#include" (trim_start pre)) && negb asm
            then plain_of f asm (pre ++ "/*" ++ z) out ins st pre (Some (before "//" z))
            else plain_of f asm (pre ++ "/*" ++ z) out ins st pre (Some (before "//" z)))
     with (plain_of f asm (pre ++ "/*" ++ z) out ins st pre (Some (before "//" z)))
-    by (destruct (negb (starts_with "#include" pre) && negb asm); reflexivity).
+    by (destruct (negb (starts_with "#include" (trim_start pre)) && negb asm); reflexivity).
   unfold plain_of. cbv zeta. rewrite drop_after_open. reflexivity.
 Qed.
 Print Assumptions scan_loop_open.
@@ -884,7 +1083,7 @@ Proof.
     rewrite (split_once_none _ _ Mb), (split_once_none _ _ Mq).
     unfold plain_of. cbn [append].
     rewrite eqb_app_nonempty by exact M1.
-    destruct (negb (starts_with "#include" mid) && negb asm); reflexivity.
+    destruct (negb (starts_with "#include" (trim_start mid)) && negb asm); reflexivity.
   - destruct mid; [contradiction|discriminate].
   - destruct mid as [|c [|d mid]]; [contradiction| |].
     + intros E. inversion E.
@@ -1075,102 +1274,6 @@ Proof.
 Qed.
 Print Assumptions splice_at_eof.
 
-(** * [scannable] is exact: a pair-wise well-formed body with a quote after two backslashes is cut *)
-
-Lemma ends_with_cons_true (suf : string) (c : ascii) (s : string) :
-  ends_with suf s = true -> ends_with suf (String c s) = true.
-Proof.
-  intros H. apply ends_with_decomp in H. destruct H as [p ->].
-  change (String c (p ++ suf)) with (String c p ++ suf). apply ends_with_app.
-Qed.
-
-Lemma split_once_char_spec (c : ascii) (s l r : string) :
-  split_once (String c "") s = Some (l, r) ->
-  s = l ++ String c "" ++ r /\ contains (String c "") l = false.
-Proof.
-  intros H. apply split_once_spec in H. destruct H as [Hs Ns]. split; [exact Hs|].
-  destruct (contains (String c "") l) eqn:Cl; [|reflexivity].
-  unfold contains in Cl. destruct (split_once (String c "") l) as [[x y]|] eqn:E; [|discriminate].
-  apply split_once_spec in E. destruct E as [El _]. subst l.
-  rewrite no_start_app in Ns. apply andb_true_iff in Ns. destruct Ns as [_ Ns].
-  rewrite no_start_app in Ns. apply andb_true_iff in Ns. destruct Ns as [Ns _].
-  cbn [no_start append starts_with] in Ns. rewrite Ascii.eqb_refl in Ns. discriminate.
-Qed.
-
-Lemma bsq_has_quote (s : string) : contains bs_bs_quote s = true -> contains """" s = true.
-Proof.
-  induction s as [|a s IH]; intros H; [vm_compute in H; discriminate|].
-  unfold contains in H. rewrite split_once_eq in H.
-  destruct (starts_with bs_bs_quote (String a s)) eqn:E.
-  - apply starts_with_decomp in E. rewrite E.
-    change bs_bs_quote with ("\\" ++ """"). rewrite s_app_assoc. apply contains_mid.
-  - change (String a s) with (String a "" ++ s). apply contains_app_r, IH.
-    unfold contains. destruct (split_once bs_bs_quote s) as [[x y]|]; [reflexivity|discriminate].
-Qed.
-
-Lemma no_bsq_before_quote (l z : string) :
-  contains """" l = false -> ends_with "\\" l = false -> no_start bs_bs_quote l ("""" ++ z) = true.
-Proof.
-  induction l as [|a l IH]; intros C E; [reflexivity|].
-  apply contains_false_cons in C. destruct C as [C1 C2].
-  cbn [no_start]. apply andb_true_iff. split.
-  - apply negb_true_iff. destruct l as [|c [|d l]].
-    + cbn [append starts_with bs_bs_quote].
-      destruct (Ascii.eqb "\" a); reflexivity.
-    + unfold ends_with, rev_string in E. cbn [rev_string_aux starts_with] in E.
-      cbn [append starts_with bs_bs_quote].
-      destruct (Ascii.eqb "\" a); destruct (Ascii.eqb "\" c); try reflexivity.
-      discriminate.
-    + apply contains_false_cons in C2. destruct C2 as [_ C3].
-      apply contains_false_cons in C3. destruct C3 as [C3 _].
-      cbn [starts_with] in C3. rewrite andb_true_r in C3.
-      cbn [append starts_with bs_bs_quote]. rewrite C3.
-      destruct (Ascii.eqb "\" a); destruct (Ascii.eqb "\" c); reflexivity.
-  - apply IH; [exact C2|].
-    destruct (ends_with "\\" l) eqn:El; [|reflexivity].
-    rewrite (ends_with_cons_true _ a _ El) in E. discriminate.
-Qed.
-
-Lemma find_close_short (rest : string) : forall n b fuel acc res rst,
-  String.length b < n -> pair_wf b = true -> contains bs_bs_quote b = true ->
-  find_close fuel (b ++ """" ++ rest) acc = Some (res, rst) ->
-  String.length res < String.length acc + String.length b.
-Proof.
-  induction n as [|n IH]; intros b fuel acc res rst Hn W C F; [lia|].
-  destruct fuel as [|f]; [discriminate|]. cbn [find_close] in F.
-  destruct (split_once """" b) as [[l r]|] eqn:E.
-  - apply split_once_char_spec in E. destruct E as [Eb Cl]. subst b.
-    destruct (wf_split_quote _ _ W Cl) as [_ Wr].
-    rewrite !s_app_assoc in F.
-    rewrite (split_once_char _ l (r ++ """" ++ rest) Cl) in F.
-    rewrite !s_length_app. cbn [append String.length].
-    destruct (negb (ends_with "\" l) || ends_with "\\" l) eqn:T.
-    + inversion F; subst res rst. rewrite s_length_app, rev_string_length. lia.
-    + apply orb_false_iff in T. destruct T as [_ T].
-      assert (Cr : contains bs_bs_quote r = true).
-      { rewrite <- C. symmetry.
-        replace (l ++ """" ++ r) with ((l ++ """") ++ r) by apply s_app_assoc.
-        apply contains_skip. rewrite no_start_app. apply andb_true_iff. split.
-        - apply no_bsq_before_quote; assumption.
-        - reflexivity. }
-      rewrite s_length_app in Hn. cbn [append String.length] in Hn.
-      specialize (IH r f _ _ _ ltac:(lia) Wr Cr F).
-      rewrite s_length_app, rev_string_length, s_length_app in IH.
-      cbn [String.length] in IH. lia.
-  - apply bsq_has_quote in C. unfold contains in C. rewrite E in C. discriminate.
-Qed.
-
-Theorem find_close_inexact : forall body rest fuel,
-  pair_wf body = true -> contains bs_bs_quote body = true ->
-  find_close fuel (body ++ """" ++ rest) "" <> Some (body, rest).
-Proof.
-  intros body rest fuel W C F.
-  pose proof (find_close_short rest (S (String.length body)) body fuel "" body rest
-                               ltac:(lia) W C F) as H.
-  cbn [String.length] in H. lia.
-Qed.
-Print Assumptions find_close_inexact.
-
 (** more findings, as computations *)
 
 (** a comment is removed, not replaced by a space: the neighbours are pasted together *)
@@ -1182,3 +1285,102 @@ Proof. vm_compute. reflexivity. Qed.
 Example include_line_not_extracted :
   scan_line false ("#include " ++ QQ ++ "a//b.h" ++ QQ ++ nl) st0 = ScanOk ("#include " ++ QQ ++ "a") true st0.
 Proof. vm_compute. reflexivity. Qed.
+
+(** * Layout of directive lines (C11) *)
+
+Definition TAB : string := String (ascii_of_nat 9) "".
+
+(** ** the directive word ends at the first blank or TAB *)
+Lemma split_blank_first (w : string) (c : ascii) (r : string) :
+  split_blank w = None -> is_blank_or_tab c = true -> split_blank (w ++ String c r) = Some (w, r).
+Proof.
+  intros Hw Hc. induction w as [|a w IH].
+  - cbn [append split_blank]. rewrite Hc. reflexivity.
+  - cbn [split_blank] in Hw. cbn [append split_blank].
+    destruct (is_blank_or_tab a); [discriminate|].
+    destruct (split_blank w) as [[b t]|]; [discriminate|].
+    rewrite (IH eq_refl). reflexivity.
+Qed.
+
+Theorem directive_parts_blank_or_tab : forall w c z,
+  split_blank w = None -> is_blank_or_tab c = true ->
+  contains "//" (w ++ String c z) = false ->
+  directive_parts (w ++ String c z) = (w, if String.eqb (trim z) "" then None else Some (trim z)).
+Proof.
+  intros w c z Hw Hc Hs. unfold directive_parts.
+  rewrite (before_none _ _ Hs), (split_blank_first w c z Hw Hc). reflexivity.
+Qed.
+Print Assumptions directive_parts_blank_or_tab.
+
+(** a TAB after the directive word is as good as a blank *)
+Corollary directive_parts_tab_like_blank : forall w z,
+  split_blank w = None ->
+  contains "//" (w ++ TAB ++ z) = false -> contains "//" (w ++ " " ++ z) = false ->
+  directive_parts (w ++ TAB ++ z) = directive_parts (w ++ " " ++ z).
+Proof.
+  intros w z Hw H1 H2.
+  change (w ++ TAB ++ z) with (w ++ String (ascii_of_nat 9) z) in *.
+  change (w ++ " " ++ z) with (w ++ String " " z) in *.
+  rewrite (directive_parts_blank_or_tab w (ascii_of_nat 9) z Hw eq_refl H1).
+  rewrite (directive_parts_blank_or_tab w " " z Hw eq_refl H2). reflexivity.
+Qed.
+Print Assumptions directive_parts_tab_like_blank.
+
+(** the repaired defect: "#ifdef<TAB>FOO" was the word "#ifdef<TAB>FOO" without argument
+    ("Expected something after `#ifdef`"); it selects like "#ifdef FOO", and so do the other
+    directives *)
+Example ifdef_tab_example :
+  directive_parts ("#ifdef" ++ TAB ++ "FOO") = ("#ifdef", Some "FOO")
+  /\ (forall defs,
+        defs = [("FOO", "1")] \/ defs = [] ->
+        run_cpp [] "m.c" defs ["#ifdef" ++ TAB ++ "FOO" ++ nl; "x" ++ nl; "#else" ++ nl; "y" ++ nl; "#endif" ++ nl]
+        = run_cpp [] "m.c" defs ["#ifdef FOO" ++ nl; "x" ++ nl; "#else" ++ nl; "y" ++ nl; "#endif" ++ nl])
+  /\ match run_cpp [] "m.c" [("FOO", "1")] ["#ifdef" ++ TAB ++ "FOO" ++ nl; "x" ++ nl; "#else" ++ nl; "y" ++ nl; "#endif" ++ nl] with
+     | POk p => p_out p = "x" ++ nl
+     | PErr _ => False
+     end
+  /\ match run_cpp [] "m.c" [] ["#ifdef" ++ TAB ++ "FOO" ++ nl; "x" ++ nl; "#else" ++ nl; "y" ++ nl; "#endif" ++ nl] with
+     | POk p => p_out p = "y" ++ nl
+     | PErr _ => False
+     end
+  /\ match run_cpp [] "m.c" [] ["#define" ++ TAB ++ "A" ++ TAB ++ "1" ++ nl; "#if" ++ TAB ++ "A" ++ nl; "A;" ++ nl;
+                                "#endif" ++ nl; "#undef" ++ TAB ++ "A" ++ nl; "#ifndef" ++ TAB ++ "A" ++ nl; "A;" ++ nl; "#endif" ++ nl] with
+     | POk p => p_out p = "1;" ++ nl ++ "A;" ++ nl
+     | PErr _ => False
+     end.
+Proof.
+  split; [reflexivity|]. split; [intros defs [-> | ->]; vm_compute; reflexivity|].
+  vm_compute. repeat split; reflexivity.
+Qed.
+
+(** ** an #include line keeps its quotes, leading white space or not *)
+Theorem include_line_not_scanned : forall asm l st,
+  sc_in_comment st = false ->
+  starts_with "#include" (trim_start l) = true ->
+  contains "//" l = false -> contains "/*" l = false ->
+  scan_line asm l st = ScanOk l true st.
+Proof.
+  intros asm l st Hc Hi Cs Cb.
+  assert (E : String.eqb l "" = false) by (destruct l; [discriminate|reflexivity]).
+  unfold scan_line. rewrite Hc. cbn [negb].
+  rewrite scan_loop_code; [|exact Hc|exact E].
+  rewrite (before_none _ _ Cs). cbv zeta. rewrite (split_once_none _ _ Cb).
+  rewrite Hi. cbn [negb andb]. unfold plain_of. cbn [append]. rewrite E. reflexivity.
+Qed.
+Print Assumptions include_line_not_scanned.
+
+(** the repaired defect: with leading blanks the file name used to be taken for a string literal
+    (a marker replaced it, a literal was recorded and the directive failed with "Expected < or
+    quote"); the file is included and no literal is recorded *)
+Example include_leading_blanks_example :
+  scan_line false ("   #include " ++ """" ++ "f.h" ++ """" ++ nl) st0
+  = ScanOk ("   #include " ++ """" ++ "f.h" ++ """" ++ nl) true st0
+  /\ match run_cpp [("f.h", ["int x;" ++ nl])] "m.c" [] ["   #include " ++ """" ++ "f.h" ++ """" ++ nl; "int y;" ++ nl] with
+     | POk p => p_out p = "int x;" ++ nl ++ "int y;" ++ nl
+                /\ c_scan (p_ctx p) = mkScan false 0 []
+                /\ rev (p_map p) = [("f.h", 1%N, Some ("m.c", 1%N)); ("m.c", 2%N, None)]
+     | PErr _ => False
+     end
+  /\ run_cpp [("f.h", ["int x;" ++ nl])] "m.c" [] [TAB ++ " #include " ++ """" ++ "f.h" ++ """" ++ nl]
+     = run_cpp [("f.h", ["int x;" ++ nl])] "m.c" [] ["#include " ++ """" ++ "f.h" ++ """" ++ nl].
+Proof. vm_compute. repeat split; reflexivity. Qed.
